@@ -3,7 +3,6 @@ import Compute.Model.Mat
 import Compute.Model.Broadcast
 import Compute.Model.Vops
 import Compute.Model.Shape
-import Compute.Model.DotTrait
 /-
 Model of `src/predict/gps/kernels.rs` (C20): the RBF (squared-exponential) and rational-quadratic
 covariance kernels — constructors with their asserts, the scalar `forward` (`f64` and `&f64` share one
@@ -11,12 +10,12 @@ macro body) and the matrix `forward` (`Vector`, `&Vector`, `Matrix`, `&Matrix` s
 written in the source:
 
     let (x, y) = (x.reshape(-1, 1), y.reshape(-1, 1));
-    (-(x.powi(2).reshape(-1, 1) + y.powi(2).reshape(1, -1) - 2. * x.dot_t(y)) / (2. * l.powi(2))).exp() * var
+    (-(x - y.reshape(1, -1)).powi(2) / (2. * l.powi(2))).exp() * var          (as repaired by F50)
 
 on top of the models of the pieces it calls: `Vector::reshape` / `Matrix::reshape` (`Model/Shape.lean`),
 `Matrix::powi` → `vpowi` with its exponent-2 special case, `f64 ∘ Matrix` / `Matrix ∘ f64` → the `sv`/`vs`
-kernels, `Matrix::exp`/`powf` → `vun`/`vunArgF` (`Model/Vops.lean`), `Matrix ± Matrix` → `broadcast_op!`
-(`Model/Broadcast.lean`), `Dot::dot_t` (`Model/DotTrait.lean` through the generated wiring table → `matmul`).
+kernels, `Matrix::exp`/`powf` → `vun`/`vunArgF` (`Model/Vops.lean`), `Matrix - Matrix` → `broadcast_op!`
+(`Model/Broadcast.lean`).
 Every intermediate `Matrix::new(data, nrows, ncols)` keeps its `nrows * ncols == len` assert.
 Generic in the scalar; `none` = panic.  Core Lean only.
 -/
@@ -91,7 +90,7 @@ def Pts.points : Pts α → List α
   | .mat m => m.data
 
 /-- `Matrix::new(data, nrows as i32, ncols as i32)` around the result of an element-wise kernel. -/
-def wrap (d : List α) (r c : Nat) : Option (Mat α) := DotT.matrixNew d r c
+def wrap (d : List α) (r c : Nat) : Option (Mat α) := if r * c = d.length then some ⟨d, r, c⟩ else none
 
 section matrix
 variable [Inhabited α] [Add α] [Sub α] [Mul α] [Div α] [Neg α] [Zero α] [One α] [NatCast α] [Transc α]
@@ -101,19 +100,15 @@ variable [Inhabited α] [Add α] [Sub α] [Mul α] [Div α] [Neg α] [Zero α] [
 def mpowi (m : Mat α) (n : Int) : Option (Mat α) :=
   wrap (Vops.vunArgI (· * ·) powi n m.data) m.nrows m.ncols
 
-/-- `x.powi(2).reshape(-1, 1) + y.powi(2).reshape(1, -1) - 2. * x.dot_t(y)` after
-`let (x, y) = (x.reshape(-1, 1), y.reshape(-1, 1))`. -/
+/-- `(x - y.reshape(1, -1)).powi(2)` after `let (x, y) = (x.reshape(-1, 1), y.reshape(-1, 1))` (F50: the squared
+distances are formed directly; `Matrix - Matrix` of an `n × 1` and a `1 × m` matrix is `broadcast_sub`, then
+`Matrix::powi(2)` on the `n·m` differences). -/
 def sqDist (x y : Pts α) : Option (Mat α) := do
   let xc ← x.reshape (-1) 1
   let yc ← y.reshape (-1) 1
-  let x2 ← mpowi xc 2
-  let x2c ← Shape.reshape x2 (-1) 1
-  let y2 ← mpowi yc 2
-  let y2r ← Shape.reshape y2 1 (-1)
-  let s ← broadcastOp (· + ·) x2c y2r                       -- Matrix + Matrix = broadcast_add
-  let d ← DotT.dotMM .dotT xc yc                            -- x.dot_t(y)
-  let d2 ← wrap (Vops.sv (· * ·) two d.data) d.nrows d.ncols   -- 2. * Matrix = svmul
-  broadcastOp (· - ·) s d2                                  -- Matrix - Matrix = broadcast_sub
+  let yr ← Shape.reshape yc 1 (-1)
+  let d ← broadcastOp (· - ·) xc yr                         -- Matrix - Matrix = broadcast_sub
+  mpowi d 2
 
 /-- `impl Kernel<$t1, Matrix> for RBFKernel` for `Matrix`, `Vector`, `&Matrix`, `&Vector`:
 `(-(sqdist) / (2. * l.powi(2))).exp() * self.var`. -/
